@@ -171,7 +171,10 @@ func (w *Writer) encodeEnd() {
 
 func (w *Writer) encodeChar(c uint) {
 	// travel from leaf to root
-	i, j := uint(0), int(0)
+	//
+	// The code is collected leaf first in the top bits of i. The frequencies only limit the depth of
+	// a leaf to about 22 levels, so i must be wider than the 16 bits putCode takes at a time.
+	i, j := uint64(0), int(0)
 	k := w.z.prnt[c+_T]
 	for {
 		i >>= 1
@@ -179,14 +182,18 @@ func (w *Writer) encodeChar(c uint) {
 
 		// if node's address is odd-numbered, choose bigger brother node
 		if k&1 != 0 {
-			i += 0x8000
+			i |= 1 << 63
 		}
 
 		if k = w.z.prnt[k]; k == _R {
 			break
 		}
 	}
-	w.putCode(j, i)
+	for ; j > 16; j -= 16 {
+		w.putCode(16, uint(i>>48))
+		i <<= 16
+	}
+	w.putCode(j, uint(i>>48))
 	w.z.update(int(c))
 }
 
